@@ -17,7 +17,10 @@ func init() {
 		ruleDef{"C09.R4", c09r4},
 		// the standard library strips client-supplied Forwarded / X-Forwarded-* by canonical key: HTTP/2 request headers must be stored under canonical keys
 		ruleDef{"C05.R5", c05r5},
+		// Request.Host (hence X-Forwarded-Host) and the header map of HTTP/2 requests are built as upstream builds them
+		ruleDef{"C09.R5", func(r *R) { forkSiblingRule(r, "C09.R5", "server.go") }},
 	)
+	wantRefs("C09")
 }
 
 const nSetXForwarded = "(*net/http/httputil.ProxyRequest).SetXForwarded"
